@@ -598,10 +598,12 @@ def validate(ir):
     return errs
 
 
+def reference_ir():
+    return front_end()
+
+
 def run():
-    ir = front_end()
-    errs = validate(ir)
-    if errs:
-        raise TranslationError("front-end validation failed: " + "; ".join(errs[:5]))
+    from translate import with_reference
+    ir = with_reference("pauli", front_end, validate)
     write_if_changed(LEAN / "QibGen" / "PauliTables.lean", to_lean(ir))
     return ir
